@@ -74,7 +74,11 @@ impl TableBuilder for PostgresQueryBuilder {
                     None => "vector".into(),
                 },
                 ColumnType::Custom(iden) => iden.to_string(),
-                ColumnType::Enum { name, .. } => name.to_string(),
+                ColumnType::Enum { name, .. } => {
+                    let mut sql = String::new();
+                    name.prepare(&mut sql, self.quote());
+                    sql
+                }
                 ColumnType::Cidr => "cidr".into(),
                 ColumnType::Inet => "inet".into(),
                 ColumnType::MacAddr => "macaddr".into(),
